@@ -172,6 +172,24 @@ func ruleAttacks(c *vf.Ctx, x *chain.Explorer, w *chain.World, path []string) {
 				continue
 			}
 			fc := fce.FileContract
+			if fc.WindowStart >= h && fc.RevisionNumber >= math.MaxUint64-2 && len(fc.ValidProofOutputs) >= 2 {
+				// a finalised contract (revision number at / next to 2^64-1): no revision number is acceptable any more
+				// except a strictly larger one; in particular nothing after 2^64-1
+				for _, rn := range []uint64{0, 1, fc.RevisionNumber - 1, fc.RevisionNumber} {
+					rev := fc
+					rev.ValidProofOutputs = append([]types.SiacoinOutput(nil), fc.ValidProofOutputs...)
+					rev.MissedProofOutputs = append([]types.SiacoinOutput(nil), fc.MissedProofOutputs...)
+					rev.RevisionNumber = rn
+					try("v1 revision of a finalised contract does not raise the revision number", w.UseV1Revise(fce, rev, 0), false)
+				}
+				if v2rn := fc.RevisionNumber; v2rn < math.MaxUint64 {
+					rev := fc
+					rev.ValidProofOutputs = append([]types.SiacoinOutput(nil), fc.ValidProofOutputs...)
+					rev.MissedProofOutputs = append([]types.SiacoinOutput(nil), fc.MissedProofOutputs...)
+					rev.RevisionNumber = math.MaxUint64
+					try("v1 revision to the final revision number (control)", w.UseV1Revise(fce, rev, 0), true)
+				}
+			}
 			if fc.WindowStart >= h && fc.RevisionNumber < math.MaxUint64-2 && len(fc.ValidProofOutputs) >= 2 && len(fc.MissedProofOutputs) >= 2 {
 				mk := func(f func(rev *types.FileContract)) chain.Use {
 					rev := fc
@@ -271,6 +289,18 @@ func ruleAttacks(c *vf.Ctx, x *chain.Explorer, w *chain.World, path []string) {
 				{
 					u := w.UseV2Revise(fce, fc, 0)
 					try("v2 revision keeps revision number", u, false)
+				}
+				if fc.RevisionNumber < math.MaxUint64-1 {
+					// finalised earlier in the block (revision number 2^64-1): nothing may follow
+					fin := w.UseV2Revise(fce, fc, math.MaxUint64-fc.RevisionNumber)
+					try("v2 revision to the final revision number (control)", fin, true)
+					for _, rn := range []uint64{0, fc.RevisionNumber + 1, math.MaxUint64 - 1, math.MaxUint64} {
+						cur := fc
+						cur.RevisionNumber = rn
+						u := w.UseV2Revise(fce, cur, 0)
+						u.Before = []chain.Use{fin}
+						try("v2 revision after the final revision number", u, false)
+					}
 				}
 				try("v2 revision moves value renter->host (control)", mk(func(rev *types.V2FileContract) {
 					if !rev.RenterOutput.Value.IsZero() {
